@@ -306,6 +306,7 @@ func (r *Raft) onInstallSnapRequest(req *installSnapReq, c *conn) (rpcResult, er
 		return unexpectedErr, opError(doneErr, "snapshotSink.done")
 	}
 
+	verifPoint("install.published")
 	discardLog := true
 	if r.storage.log.Contains(meta.index) {
 		metaTerm, err := r.storage.getEntryTerm(meta.index)
@@ -330,6 +331,7 @@ func (r *Raft) onInstallSnapRequest(req *installSnapReq, c *conn) (rpcResult, er
 		//       if restoreFSM fails panic and exit
 		//       if takeSnap req came meanwhile, reply inProgress(restoreFSM)
 
+		verifPoint("install.logCleared")
 		// restore fsm from this snapshot
 		r.fsm.ch <- fsmRestoreReq{r.fsmRestoredCh}
 		r.commitIndex = r.snaps.index
